@@ -92,6 +92,31 @@ def gen_cases(tier, rng):
                            (['-l', '1', '--endvalues', '-f'], 'b0=1;s0=s-;vi0=[1]'),
                            (['-l', '1', '2', '-f', 'x3'], 'b0=1;s0=s%s;vi0=[1,2]' % A.hx('x3'))):
                 cases.append(' '.join(toks) + ' ' + A.argv_tok(w) + ' exp:%s mut:%s' % (exp, 'bad-value' if exp == 'reject' else 'none'))
+    # a sub-group argument owned by a member handler (outside the model: judged by the expected values)
+    for order in (('a', 'b'), ('b', 'a')):
+        parts = {'a': 'G:a:f=0 arg:v:b0:init=0', 'b': 'G:b:f=0 arg:n:i0: S:o,output:f=0 arg:f,file:s0: arg:q:b1:init=0'}
+        pre = ' '.join(parts[m] for m in order)
+        for w, exp in ((['-o', '-f', 'x'], 'b0=0;b1=0;i0=0;s0=s78'), (['-v', '-o', '-q', '-n', '4'], 'b0=1;b1=1;i0=4;s0=s-'),
+                       (['--output', '--file=y', '-v'], 'b0=1;b1=0;i0=0;s0=s79'), (['-o', '-x'], 'reject'), (['-f', 'x'], 'reject')):
+            cases.append('%s %s exp:%s mut:%s' % (pre, A.argv_tok(w), exp, 'unknown-short' if exp == 'reject' else 'none'))
+    # the same key in two members with the flags of the Groups singleton that are passed on to the members
+    for gs in (0x20000, 0x8000, 0x28000):
+        for nm in (2, 3):
+            for tgt in range(nm):
+                for src in range(nm):
+                    if src == tgt:
+                        continue
+                    toks = ['GS:f=%d' % gs]
+                    for j in range(nm):
+                        toks.append('G:m%d:f=0' % j)
+                        toks.append('arg:k%d:b%d:init=0' % (j, j))
+                        if j == src:
+                            toks.append('arg:x,xray:i0:')
+                        if j == tgt:
+                            toks.append('arg:x:i1:')
+                    order = [j for j in range(nm) for _ in range(2 if j in (src, tgt) else 1)]
+                    cases.append(' '.join(toks) + ' argv:- exp:setup mut:shared-key')
+                    cases.append(' '.join(toks) + ' argv:- exp:setup mut:shared-key order:' + ','.join(map(str, sorted(order, key=lambda j: (j != src, j)))))
     # the Groups singleton created with "continue after the usage": the end-of-line checks still run
     cases.append('GS:f=32768 G:a:f=0 arg:m:i0:man G:b:f=0 arg:x:b0:init=0 argv:2d78 exp:reject mut:drop-mandatory')
     cases.append('GS:f=32768 G:a:f=0 arg:m:i0:man G:b:f=0 arg:x:b0:init=0 argv:- exp:reject mut:empty-line')
@@ -139,7 +164,8 @@ def gen_cases(tier, rng):
             cases.append(_line(mem, mcons, w, ('exp:reject', 'mut:' + kind)))
         elif len(mem) >= 2:
             # the same key defined in two members
-            a = rng.choice(mem[0])
+            src = rng.below(len(mem))
+            a = rng.choice(mem[src])
             dup = G.Arg()
             dup.kind = 'b'; dup.slot = 'b3'; dup.init = '0'
             form = rng.below(4)
@@ -162,9 +188,12 @@ def gen_cases(tier, rng):
             mem2 = [list(m) for m in mem]
             # the duplicate goes into any other member, at any position, and the definitions are made in a random
             # interleaving over the members (all handlers exist before the first argument is defined)
-            tgt = rng.range(1, len(mem2) - 1)
+            tgt = rng.choice([j for j in range(len(mem2)) if j != src])
             mem2[tgt].insert(rng.below(len(mem2[tgt]) + 1), dup)
             extra = ['exp:setup', 'mut:shared-key']
+            gs = rng.choice([None, None, 0x8000, 0x20000, 0x28000])      # flags of the Groups singleton
+            if gs is not None:
+                extra.append('GS:f=%d' % gs)
             if rng.chance(2, 3):
                 order = [j for j, m in enumerate(mem2) for _ in m]
                 rng.shuffle(order)
